@@ -306,6 +306,29 @@ def _(n, T):
             F(n + "s", "int", [P("s", "cstr_in")], extern_c=True)]
 
 
+@shape("vec_res", types=["int", "double"], langs=("c++",), wraps=("c", "fortran", "python"), doc="vectors.yaml ReturnVectorAlloc (std::vector<T> result -> allocatable array / list)")
+def _(n, T):
+    return [F(n, {"kind": "vec_val", "T": T}, [P("a", "val", "int")])]
+
+
+@shape("arr_res_dim2", types=["int", "double"], wraps=("c", "fortran"), doc="pointers.rst / ownership.yaml: pointer result with +dimension(expr, expr) as allocatable or pointer array")
+def _(n, T):
+    return [F(n + "a", {"kind": "arr_ptr", "T": T, "deref": "allocatable", "owner": "library", "dims": ["n+1", "m"]},
+              [P("n", "val", "int", role="count"), P("m", "val", "int", role="count")]),
+            F(n + "p", {"kind": "arr_ptr", "T": T, "deref": "pointer", "owner": "library", "dims": ["n", "m+2"]},
+              [P("n", "val", "int", role="count"), P("m", "val", "int", role="count")]),
+            F(n + "v", {"kind": "arr_ptr", "T": T, "deref": "allocatable", "owner": "library", "dims": ["2*n+1"]},
+              [P("n", "val", "int", role="count")])]
+
+
+@shape("ns_block", langs=("c++",), wraps=("c", "fortran"), doc="namespace.yaml / docs/namespaces.rst: declarations inside a namespace block get their own Fortran module and a scoped C name")
+def _(n, T):
+    return [F(n + "s", "int", [P("a", "val", "int")], ns=n + "_inner"),
+            F(n + "r", "str_val", [P("a", "val", "int")], ns=n + "_inner"),
+            F(n + "v", "void", [P("v", "vec_out", "int")], ns=n + "_inner"),
+            F(n + "c", "cstr", [P("a", "val", "int")], ns=n + "_inner")]
+
+
 @shape("class_const", langs=("c++",), wraps=("c",), doc="docs/classes.rst: const and non-const member functions, an overload pair that differs only in const, a const method declared first")
 def _(n, T):
     c = n + "_C"
@@ -409,8 +432,8 @@ def assign_names(lib):
     for f in lib["functions"]:
         if f.get("dtor"):
             continue
-        groups.setdefault((f.get("cls"), f["name"]), []).append(f)
-    for (cls, name), fs in groups.items():
+        groups.setdefault((f.get("cls"), f["name"], f.get("ns")), []).append(f)
+    for (cls, name, nsb), fs in groups.items():
         # expansion order of generate.py as documented: for each declaration, variants with fewer trailing defaults
         # come first, then the declaration itself; explicit suffixes win; otherwise _<sequence number> when overloaded
         variants = []
@@ -444,7 +467,9 @@ def assign_names(lib):
             f["variants"] = []
         for v in variants:
             f = v["f"]
-            scope = (cls + "_") if cls else ""
+            # a namespace block is part of the C name scope and gets its own Fortran module (docs/reference.rst
+            # C_name_scope, F_module_name_namespace_template)
+            scope = ((nsb + "_") if nsb else "") + ((cls + "_") if cls else "")
             under = un_camel(f["name"]) if not f.get("ctor") else "ctor"
             if f.get("ctor"):
                 under = "ctor"
@@ -459,7 +484,7 @@ def assign_names(lib):
                 f["variants"].append({
                     "nparams": v["nparams"], "template": t,
                     "c_name": f["name"] if direct else prefix + scope + under + v["suffix"] + tsfx,
-                    "f_specific": (scope.lower() + under + v["suffix"] + tsfx).lower(),
+                    "f_specific": (((cls + "_") if cls else "").lower() + under + v["suffix"] + tsfx).lower(),
                     "f_generic": (cls.lower() if f.get("ctor") else under) if True else None,
                     "suffix": v["suffix"] + tsfx,
                     "generic": [g for g in gens if g],
